@@ -72,6 +72,10 @@ def check_serialize(run, L, path, fields, inv_adt):
     for i, (fname, e) in enumerate(zip(fields, tr[1:1 + n])):
         nm = strval(e['args'][1])
         ref = e['args'][2]
+        # a field handed over as `&&T` (a borrowed proxy struct holding `&self.field`): serde's `impl Serialize for &T` forwards to T,
+        # so a reference whose pointee is itself one reference is the inner reference
+        while 'r' in ref and ref['r']['name'] != 'a0' and isinstance(ref['r'].get('val'), dict) and 'r' in ref['r']['val'] and ref['r']['ty'].startswith('&'):
+            ref = ref['r']['val']
         txt = L.showval(ref)
 
         def mentions(f_):
